@@ -162,7 +162,7 @@ def c02(run):
 
 def c03(run):
     gens = [("Gen_Window", "win", 8, 16, 9000, 90000, ["WindowLaw", "EmitWin"], 1000),
-            ("Gen_Window", "win500", 64, 128, 1000, 12000, ["EmitWin"], 500)]
+            ("Gen_Window", "win500", 6, 16, 1500, 12000, ["EmitWin"], 500)]
     return query_check(
         run, gens, RESULT,
         rule=("TLC enumerates every sample layout (floats / staleness markers, two value patterns) x range x step x offset x @ x "
@@ -616,8 +616,18 @@ def extreme_params(run, binary):
     internal = [v for v in viols if v[1] == "EngEqualsRef" and v[2].startswith("errpresence:errA=true errB=false")]
     attribute(run, [v for v in viols if v[1] == "ProcessDead"] + [[v[0], "InternalErrorWhereReferenceHasValue", v[2]] for v in internal], hdr,
               lambda clause, fam: ["C13"] if clause in ("ProcessDead", "InternalErrorWhereReferenceHasValue") else [])
+    # ... and the vocabulary (every function, aggregation, operator, subquery, in every position) planned by the
+    # distributed engine over two remote engines, fallback enabled everywhere: a dead child is a violation
+    write_vocab(run, binary)
+    fb = vlib.generate(run, "Gen_Fallback", gen_cfg(run.tier, run.seed, 12 if quick else 2, ["EmitFb"]), "fb", fam="C13", timeout=1500)
+    for s in fb:
+        s.setdefault("cfg", {})["fallback"] = 1
+    dtraces = vlib.replay(run, binary, "dist", fb, "xd", chunks=max(1, min(vlib.NCPU // 2, len(fb) // 200)))
+    dviols, _ = vlib.validate(run, "SessionTrace", dtraces, "xd")
+    attribute(run, [v for v in dviols if v[1] == "ProcessDead"], headers_of(dtraces, {v[0] for v in dviols}),
+              lambda clause, fam: ["C13"] if clause == "ProcessDead" else [])
     st = sum_stats(stats)
-    run.cov["extreme_parameter_scenarios"] = st.get("sc", 0)
+    run.cov["extreme_parameter_scenarios"] = st.get("sc", 0) + len(fb)
     log("extreme parameters / degenerate inputs: %d scenarios (k and quantile 0, -1, NaN, Inf, 1e18, 1e11, 1e300, per-step, NaN on empty steps; 1e308 / denormal / empty inputs)" % st.get("sc", 0))
 
 
@@ -645,6 +655,10 @@ def fault_check(run, rule_extra, assumptions):
         ps = [p for p, cs in FAULT_CLAUSES.items() if clause in cs]
         if clause == "FaultFreeOK":
             ps = ["C11"]
+        # a child that died or hung took its scenario's observations with it: the property being checked is not
+        # vouched for there either (as in every other family)
+        if clause in ("ProcessDead", "ProcessHung") and run.prop not in ps:
+            ps = ps + [run.prop]
         return ps
     attribute(run, viols, hdr, cp)
     run.cov["traces_validated_against_impl"] = st.get("runs", 0)
